@@ -168,7 +168,8 @@ Qed.
 
 Definition dead_of (s : strm) : strm :=
   {| st_path := st_path s; st_live := false; st_rtp := 0; st_flv := 0; st_retire := false; st_hls := st_hls s;
-     st_att_total := st_att_total s; st_det_total := st_det_total s |}.
+     st_att_total := st_att_total s; st_det_total := st_det_total s;
+     st_hls_idle := st_hls_idle s; st_segs := st_segs s |}.
 
 Lemma sp_kill_eq sp i :
   sp_kill sp i = if negb (st_live (sp_get sp i)) then sp else sp_set sp i (dead_of (sp_get sp i)).
@@ -469,6 +470,39 @@ Proof.
 Qed.
 
 (* ------------------------------------------------------------------ *)
+(* the clock: every playlist ages *)
+
+Definition aged (sp : sstate) (d : Z) : sstate :=
+  {| sp_last := sp_last sp; sp_streams := map (age_strm d) (sp_streams sp) |}.
+
+Lemma sp_get_aged sp d i :
+  (sp_get (aged sp d) i = age_strm d (sp_get sp i)) \/
+  (sp_get (aged sp d) i = strm0 /\ sp_get sp i = strm0).
+Proof.
+  unfold sp_get, aged; simpl. destruct (Nat.lt_ge_cases i (length (sp_streams sp))) as [L|L].
+  - left. rewrite (nth_indep _ strm0 (age_strm d strm0)) by (rewrite map_length; exact L). apply map_nth.
+  - right. split; apply nth_overflow; [rewrite map_length|]; exact L.
+Qed.
+
+Lemma live_aged sp d i : st_live (sp_get (aged sp d) i) = st_live (sp_get sp i).
+Proof. destruct (sp_get_aged sp d i) as [H|[H1 H2]]; [rewrite H | rewrite H1, H2]; reflexivity. Qed.
+
+Lemma path_aged sp d i : st_path (sp_get (aged sp d) i) = st_path (sp_get sp i).
+Proof. destruct (sp_get_aged sp d i) as [H|[H1 H2]]; [rewrite H | rewrite H1, H2]; reflexivity. Qed.
+
+Lemma keys_ok_aged sp d : keys_ok sp -> keys_ok (aged sp d).
+Proof.
+  intros [Hn Hk]. split; [exact Hn|]. simpl. intros k i Hin. destruct (Hk k i Hin) as [H1 H2].
+  rewrite map_length. split; auto. rewrite path_aged. exact H2.
+Qed.
+
+Lemma absg_aged sp d :
+  absg (aged sp d) = {| g_map := g_map (absg sp); g_streams := map (age_strm d) (sp_streams sp) |}.
+Proof.
+  unfold absg; simpl. f_equal. apply filter_ext. intros e. unfold sp_live. apply live_aged.
+Qed.
+
+(* ------------------------------------------------------------------ *)
 (* one step: the implementation started in [absg sp] answers like the specification and ends in
    [absg] of the specification's next state *)
 
@@ -483,7 +517,7 @@ Proof. reflexivity. Qed.
 
 Lemma keys_ok_step sp o : keys_ok sp -> keys_ok (fst (sstep sp o)).
 Proof.
-  intros Hok. destruct o as [p hls|i|i|i|p| | |i flv|i flv|i r|]; simpl.
+  intros Hok. destruct o as [p hls|i|i|i|p| | |i flv|i flv|i r| |d|i|i|i n]; simpl.
   - apply keys_ok_new; exact Hok.
   - destruct (i <? length (sp_streams sp))%nat eqn:Hi; simpl; [|exact Hok].
     apply Nat.ltb_lt in Hi.
@@ -504,16 +538,23 @@ Proof.
     destruct ((if flv then st_flv (sp_get sp i) else st_rtp (sp_get sp i)) <=? 0); simpl; auto.
     apply keys_ok_set; auto.
   - destruct (i <? length (sp_streams sp))%nat; simpl; auto.
-    destruct ((consumers (sp_get sp i) <=? 0) && negb (r && st_hls (sp_get sp i))); simpl; auto.
+    destruct ((consumers (sp_get sp i) <=? 0) && negb (hls_recent (sp_get sp i) r)); simpl; auto.
     apply keys_ok_kill; exact Hok.
   - apply (keys_ok_kill_list _ sp Hok).
+  - apply keys_ok_aged; exact Hok.
+  - destruct (negb (i <? length (sp_streams sp))%nat || negb (hls_usable (sp_get sp i))); simpl; auto.
+    apply keys_ok_set; auto.
+  - destruct (negb (i <? length (sp_streams sp))%nat || negb (hls_usable (sp_get sp i))); simpl; auto.
+    apply keys_ok_set; auto.
+  - destruct (negb (i <? length (sp_streams sp))%nat || negb (hls_usable (sp_get sp i))); simpl; auto.
+    apply keys_ok_set; auto.
 Qed.
 
 Lemma step_refines sp o :
   keys_ok sp -> op_wf sp o = true ->
   gstep rfixed (absg sp) o = (absg (fst (sstep sp o)), snd (sstep sp o)).
 Proof.
-  intros Hok Hwf. destruct o as [p hls|i|i|i|p| | |i flv|i flv|i r|].
+  intros Hok Hwf. destruct o as [p hls|i|i|i|p| | |i flv|i flv|i r| |d|i|i|i n].
   - (* GNew *) simpl. rewrite absg_new by exact Hok. reflexivity.
   - (* GRegist *)
     simpl in Hwf. apply andb_true_iff in Hwf as [Hi Hl].
@@ -570,10 +611,28 @@ Proof.
     change (sget (absg sp) i) with (sp_get sp i).
     destruct (i <? length (sp_streams sp))%nat; simpl negb; cbv iota; [|reflexivity].
     change (v_anycons rfixed) with true. cbv iota.
-    destruct ((consumers (sp_get sp i) <=? 0) && negb (r && st_hls (sp_get sp i))); [|reflexivity].
+    destruct ((consumers (sp_get sp i) <=? 0) && negb (hls_recent (sp_get sp i) r)); [|reflexivity].
     rewrite close_is_kill by exact Hok. reflexivity.
   - (* GUnregistAll *)
     exact (f_equal (fun x => (x, RUnit)) (unregist_all_refines sp Hok)).
+  - (* GTick *)
+    exact (f_equal (fun x => (x, RUnit)) (eq_sym (absg_aged sp d))).
+  - (* GSeg *)
+    unfold gstep, sstep. change (g_streams (absg sp)) with (sp_streams sp).
+    change (sget (absg sp) i) with (sp_get sp i).
+    destruct (negb (i <? length (sp_streams sp))%nat || negb (hls_usable (sp_get sp i))); [reflexivity|].
+    rewrite absg_set by reflexivity. reflexivity.
+  - (* GHlsPoll *)
+    unfold gstep, sstep. change (g_streams (absg sp)) with (sp_streams sp).
+    change (sget (absg sp) i) with (sp_get sp i).
+    destruct (negb (i <? length (sp_streams sp))%nat || negb (hls_usable (sp_get sp i))); [reflexivity|].
+    change (v_hlsstamp rfixed) with true. simpl orb.
+    rewrite absg_set by reflexivity. reflexivity.
+  - (* GHlsSeg *)
+    unfold gstep, sstep. change (g_streams (absg sp)) with (sp_streams sp).
+    change (sget (absg sp) i) with (sp_get sp i).
+    destruct (negb (i <? length (sp_streams sp))%nat || negb (hls_usable (sp_get sp i))); [reflexivity|].
+    rewrite absg_set by reflexivity. reflexivity.
 Qed.
 
 Lemma run_refines ops : forall sp,
@@ -621,10 +680,11 @@ Proof. induction x as [|a x IH]; auto. rewrite bytes_eqb_refl. exact IH. Qed.
 
 Lemma gout_eqb_refl a : gout_eqb a a = true.
 Proof.
-  destruct a as [|[x|]|a b|x|x]; simpl; auto.
+  destruct a as [|[x|]|a b|x|x|x]; simpl; auto.
   - apply Nat.eqb_refl.
   - rewrite !Z.eqb_refl. reflexivity.
   - apply bytes_list_eqb_refl.
+  - destruct x; reflexivity.
   - destruct x; reflexivity.
 Qed.
 
@@ -693,7 +753,7 @@ Qed.
 
 Lemma cnt_ok_step sp o : cnt_ok sp -> cnt_ok (fst (sstep sp o)).
 Proof.
-  intros Hc. destruct o as [p hls|i|i|i|p| | |i flv|i flv|i r|]; simpl.
+  intros Hc. destruct o as [p hls|i|i|i|p| | |i flv|i flv|i r| |d|i|i|i n]; simpl.
   - intros j. unfold sp_get; simpl. rewrite nth_snoc.
     destruct (j <? length (sp_streams sp))%nat; [apply Hc|].
     destruct (Nat.eqb j (length (sp_streams sp))); simpl; lia.
@@ -716,9 +776,17 @@ Proof.
     destruct ((if flv then st_flv (sp_get sp i) else st_rtp (sp_get sp i)) <=? 0) eqn:E; simpl; auto.
     apply Z.leb_gt in E. destruct (Hc i). apply cnt_ok_set; simpl; auto; destruct flv; lia.
   - destruct (i <? length (sp_streams sp))%nat; simpl; auto.
-    destruct ((consumers (sp_get sp i) <=? 0) && negb (r && st_hls (sp_get sp i))); simpl; auto.
+    destruct ((consumers (sp_get sp i) <=? 0) && negb (hls_recent (sp_get sp i) r)); simpl; auto.
     apply cnt_ok_kill; exact Hc.
   - apply (cnt_ok_kill_list _ sp Hc).
+  - intros j. change (sp_get _ j) with (sp_get (aged sp d) j).
+    destruct (sp_get_aged sp d j) as [H|[H _]]; rewrite H; simpl; [apply Hc | lia].
+  - destruct (negb (i <? length (sp_streams sp))%nat || negb (hls_usable (sp_get sp i))); simpl; auto.
+    apply cnt_ok_set; simpl; auto; apply Hc.
+  - destruct (negb (i <? length (sp_streams sp))%nat || negb (hls_usable (sp_get sp i))); simpl; auto.
+    apply cnt_ok_set; simpl; auto; apply Hc.
+  - destruct (negb (i <? length (sp_streams sp))%nat || negb (hls_usable (sp_get sp i))); simpl; auto.
+    apply cnt_ok_set; simpl; auto; apply Hc.
 Qed.
 
 Lemma cnt_ok_init : cnt_ok sinit.
@@ -874,7 +942,7 @@ Qed.
 (* liveness is never regained, and stream numbers are never reused *)
 Lemma length_step sp o : (length (sp_streams sp) <= length (sp_streams (fst (sstep sp o))))%nat.
 Proof.
-  destruct o as [p hls|i|i|i|p| | |i flv|i flv|i r|]; simpl; auto.
+  destruct o as [p hls|i|i|i|p| | |i flv|i flv|i r| |d|i|i|i n]; simpl; auto.
   - rewrite app_length. simpl. lia.
   - destruct (i <? length (sp_streams sp))%nat; simpl; auto.
     destruct (sp_resolve sp (st_path (sp_get sp i))) as [j|]; simpl; auto.
@@ -888,10 +956,17 @@ Proof.
     destruct ((if flv then st_flv (sp_get sp i) else st_rtp (sp_get sp i)) <=? 0); simpl; auto.
     rewrite lset_length; auto.
   - destruct (i <? length (sp_streams sp))%nat; simpl; auto.
-    destruct ((consumers (sp_get sp i) <=? 0) && negb (r && st_hls (sp_get sp i))); simpl; auto.
+    destruct ((consumers (sp_get sp i) <=? 0) && negb (hls_recent (sp_get sp i) r)); simpl; auto.
     rewrite length_kill; auto.
   - change (length (sp_streams sp) <= length (sp_streams (kill_list sp (filter (sp_live sp) (sp_last sp)))))%nat.
     rewrite length_kill_list; auto.
+  - rewrite map_length; auto.
+  - destruct (negb (i <? length (sp_streams sp))%nat || negb (hls_usable (sp_get sp i))); simpl; auto.
+    rewrite lset_length; auto.
+  - destruct (negb (i <? length (sp_streams sp))%nat || negb (hls_usable (sp_get sp i))); simpl; auto.
+    rewrite lset_length; auto.
+  - destruct (negb (i <? length (sp_streams sp))%nat || negb (hls_usable (sp_get sp i))); simpl; auto.
+    rewrite lset_length; auto.
 Qed.
 
 Lemma dead_step sp o j :
@@ -905,7 +980,7 @@ Proof.
                                st_live (sp_get (sp_set s i v) j) = false).
   { intros s i v H Hv. rewrite sp_get_set. destruct (Nat.eqb j i && _)%bool eqn:E; auto.
     apply andb_true_iff in E as [E _]. apply Nat.eqb_eq in E. auto. }
-  destruct o as [p hls|i|i|i|p| | |i flv|i flv|i r|]; simpl; auto.
+  destruct o as [p hls|i|i|i|p| | |i flv|i flv|i r| |d|i|i|i n]; simpl; auto.
   - unfold sp_get; simpl. rewrite nth_snoc. apply Nat.ltb_lt in Hj. rewrite Hj. exact Hd.
   - destruct (i <? length (sp_streams sp))%nat; simpl; auto.
     destruct (sp_resolve sp (st_path (sp_get sp i))) as [x|]; simpl; auto.
@@ -923,9 +998,16 @@ Proof.
     destruct ((if flv then st_flv (sp_get sp i) else st_rtp (sp_get sp i)) <=? 0); simpl; auto.
     apply Hset; auto. intros ->. congruence.
   - destruct (i <? length (sp_streams sp))%nat; simpl; auto.
-    destruct ((consumers (sp_get sp i) <=? 0) && negb (r && st_hls (sp_get sp i))); simpl; auto.
+    destruct ((consumers (sp_get sp i) <=? 0) && negb (hls_recent (sp_get sp i) r)); simpl; auto.
   - change (st_live (sp_get (kill_list sp (filter (sp_live sp) (sp_last sp))) j) = false).
     rewrite live_kill_list, Hd. reflexivity.
+  - change (st_live (sp_get (aged sp d) j) = false). rewrite live_aged. exact Hd.
+  - destruct (negb (i <? length (sp_streams sp))%nat || negb (hls_usable (sp_get sp i))); simpl; auto.
+    apply Hset; auto. intros ->. exact Hd.
+  - destruct (negb (i <? length (sp_streams sp))%nat || negb (hls_usable (sp_get sp i))); simpl; auto.
+    apply Hset; auto. intros ->. exact Hd.
+  - destruct (negb (i <? length (sp_streams sp))%nat || negb (hls_usable (sp_get sp i))); simpl; auto.
+    apply Hset; auto. intros ->. exact Hd.
 Qed.
 
 Lemma dead_forever ops : forall sp j,
@@ -958,26 +1040,26 @@ Qed.
 
 (* (c) the idle task closes a stream only when it has no consumer of any protocol and no recent HLS
    access; its answer says whether it closed it; other streams are untouched *)
-Theorem idle_only_when_unused : forall ops i r,
+Theorem idle_only_when_unused : forall ops i d,
   let sp := sexec sinit ops in
   let s := sp_get sp i in
-  let sp' := fst (sstep sp (GIdle i r)) in
+  let sp' := fst (sstep sp (GIdle i d)) in
   (st_live s = true -> st_live (sp_get sp' i) = false ->
-     st_rtp s = 0 /\ st_flv s = 0 /\ (r = false \/ st_hls s = false)) /\
-  (snd (sstep sp (GIdle i r)) = RIdle true <->
-     st_live s = true /\ st_rtp s = 0 /\ st_flv s = 0 /\ (r = false \/ st_hls s = false)) /\
-  (snd (sstep sp (GIdle i r)) = RIdle true -> st_live (sp_get sp' i) = false) /\
+     st_rtp s = 0 /\ st_flv s = 0 /\ (st_hls s = false \/ d <= st_hls_idle s)) /\
+  (snd (sstep sp (GIdle i d)) = RIdle true <->
+     st_live s = true /\ st_rtp s = 0 /\ st_flv s = 0 /\ (st_hls s = false \/ d <= st_hls_idle s)) /\
+  (snd (sstep sp (GIdle i d)) = RIdle true -> st_live (sp_get sp' i) = false) /\
   (forall j, j <> i -> sp_get sp' j = sp_get sp j).
 Proof.
   intros ops i r sp s sp'.
   destruct (reach_cnt_ok ops i) as [Hr Hf]. fold sp in Hr, Hf. fold s in Hr, Hf.
-  assert (Hcond : (consumers s <=? 0) && negb (r && st_hls s) = true <->
-                  st_rtp s = 0 /\ st_flv s = 0 /\ (r = false \/ st_hls s = false)).
-  { unfold consumers. rewrite andb_true_iff, Z.leb_le, negb_true_iff, andb_false_iff.
+  assert (Hcond : (consumers s <=? 0) && negb (hls_recent s r) = true <->
+                  st_rtp s = 0 /\ st_flv s = 0 /\ (st_hls s = false \/ r <= st_hls_idle s)).
+  { unfold consumers, hls_recent. rewrite andb_true_iff, Z.leb_le, negb_true_iff, andb_false_iff, Z.ltb_ge.
     split; [intros [H1 H2] | intros [H1 [H2 H3]]]; repeat split; auto; lia. }
   unfold sp'. simpl. fold s.
   destruct (i <? length (sp_streams sp))%nat eqn:Hi; simpl.
-  - destruct ((consumers s <=? 0) && negb (r && st_hls s)) eqn:C; simpl.
+  - destruct ((consumers s <=? 0) && negb (hls_recent s r)) eqn:C; simpl.
     + assert (C' := proj1 Hcond eq_refl).
       assert (Hk : st_live (sp_get (sp_kill sp i) i) = false).
       { rewrite live_kill, Nat.eqb_refl, andb_false_r. reflexivity. }
@@ -1004,6 +1086,179 @@ Proof.
       * intros [X _]. congruence.
     + intros X. discriminate X.
     + reflexivity.
+Qed.
+
+(* (c') HLS viewers are seen by the idle task only through the playlist's last access: the time
+   since the last access never exceeds the clock ticks since then, so a stream with an HLS access
+   (playlist request in any playlist state, or segment request) within the period is never closed
+   for idleness *)
+Definition tick_of (o : gop) : Z := match o with GTick d => Z.max 0 d | _ => 0 end.
+Fixpoint ticks (ops : list gop) : Z :=
+  match ops with [] => 0 | o :: ops' => tick_of o + ticks ops' end.
+
+Definition age_ok (sp : sstate) : Prop := forall i, 0 <= st_hls_idle (sp_get sp i).
+
+Lemma hls_kill sp i j :
+  st_hls (sp_get (sp_kill sp i) j) = st_hls (sp_get sp j) /\
+  st_hls_idle (sp_get (sp_kill sp i) j) = st_hls_idle (sp_get sp j).
+Proof.
+  rewrite sp_kill_eq. destruct (negb _); auto. rewrite sp_get_set.
+  destruct (Nat.eqb j i && _)%bool eqn:E; auto.
+  apply andb_true_iff in E as [E _]. apply Nat.eqb_eq in E; subst. auto.
+Qed.
+
+Lemma hls_kill_list l : forall sp j,
+  st_hls (sp_get (kill_list sp l) j) = st_hls (sp_get sp j) /\
+  st_hls_idle (sp_get (kill_list sp l) j) = st_hls_idle (sp_get sp j).
+Proof.
+  induction l as [|e l IH]; intros sp j; simpl; auto.
+  destruct (IH (sp_kill sp (snd e)) j) as [H1 H2]. destruct (hls_kill sp (snd e) j) as [H3 H4].
+  split; congruence.
+Qed.
+
+Lemma hls_set (s : sstate) i v j :
+  st_hls v = st_hls (sp_get s i) -> 0 <= st_hls_idle v <= st_hls_idle (sp_get s i) ->
+  st_hls (sp_get (sp_set s i v) j) = st_hls (sp_get s j) /\
+  0 <= st_hls_idle (sp_get s j) - st_hls_idle (sp_get (sp_set s i v) j) /\
+  (0 <= st_hls_idle (sp_get s j) -> 0 <= st_hls_idle (sp_get (sp_set s i v) j)).
+Proof.
+  intros H1 H2. rewrite sp_get_set. destruct (Nat.eqb j i && _)%bool eqn:E.
+  - apply andb_true_iff in E as [E _]. apply Nat.eqb_eq in E; subst. repeat split; auto; lia.
+  - repeat split; auto; lia.
+Qed.
+
+(* one step: the HLS capability of an existing stream never changes, its idle time grows by at most
+   the tick, and stays non-negative *)
+Lemma hls_step sp o j :
+  age_ok sp ->
+  let sp' := fst (sstep sp o) in
+  0 <= st_hls_idle (sp_get sp' j) /\
+  ((j < length (sp_streams sp))%nat ->
+   st_hls (sp_get sp' j) = st_hls (sp_get sp j) /\
+   st_hls_idle (sp_get sp' j) <= st_hls_idle (sp_get sp j) + tick_of o).
+Proof.
+  intros Ha sp'. pose proof (Ha j) as Hj.
+  assert (Hsame : forall s : sstate, sp_get s j = sp_get sp j ->
+     0 <= st_hls_idle (sp_get s j) /\
+     ((j < length (sp_streams sp))%nat ->
+      st_hls (sp_get s j) = st_hls (sp_get sp j) /\
+      st_hls_idle (sp_get s j) <= st_hls_idle (sp_get sp j) + tick_of o)).
+  { intros s0 E. rewrite E. split; auto. intros _. split; auto. destruct o; simpl; lia. }
+  assert (Hkill : forall (s : sstate) i, sp_get s j = sp_get sp j ->
+     0 <= st_hls_idle (sp_get (sp_kill s i) j) /\
+     ((j < length (sp_streams sp))%nat ->
+      st_hls (sp_get (sp_kill s i) j) = st_hls (sp_get sp j) /\
+      st_hls_idle (sp_get (sp_kill s i) j) <= st_hls_idle (sp_get sp j) + tick_of o)).
+  { intros s0 i E. destruct (hls_kill s0 i j) as [H1 H2]. rewrite H1, H2, E.
+    split; auto. intros _. split; auto. destruct o; simpl; lia. }
+  assert (Hset : forall (s : sstate) i v, (forall x, sp_get s x = sp_get sp x) ->
+     st_hls v = st_hls (sp_get sp i) -> 0 <= st_hls_idle v <= st_hls_idle (sp_get sp i) ->
+     0 <= st_hls_idle (sp_get (sp_set s i v) j) /\
+     ((j < length (sp_streams sp))%nat ->
+      st_hls (sp_get (sp_set s i v) j) = st_hls (sp_get sp j) /\
+      st_hls_idle (sp_get (sp_set s i v) j) <= st_hls_idle (sp_get sp j) + tick_of o)).
+  { intros s0 i v E H1 H2. rewrite <- (E i) in H1, H2.
+    destruct (hls_set s0 i v j H1 H2) as [A [B C]]. rewrite (E j) in *.
+    split; [auto|]. intros _. split; auto. destruct o; simpl; lia. }
+  unfold sp'. destruct o as [p hls|i|i|i|p| | |i flv|i flv|i r| |d|i|i|i n]; simpl.
+  - unfold sp_get; simpl. rewrite nth_snoc.
+    destruct (j <? length (sp_streams sp))%nat eqn:L.
+    + fold (sp_get sp j). split; auto. intros _. split; auto. lia.
+    + split; [destruct (Nat.eqb j (length (sp_streams sp))); simpl; lia|].
+      intros H. apply Nat.ltb_lt in H. congruence.
+  - destruct (i <? length (sp_streams sp))%nat; simpl; [|apply Hsame; reflexivity].
+    destruct (sp_resolve sp (st_path (sp_get sp i))) as [x|]; [|apply Hsame; reflexivity].
+    destruct (Nat.eqb i x); [apply Hsame; reflexivity|].
+    destruct (consumers (sp_get sp x) <=? 0); simpl.
+    + apply Hkill. reflexivity.
+    + apply Hset; simpl; auto. pose proof (Ha x). lia.
+  - destruct (i <? length (sp_streams sp))%nat; simpl; [apply Hkill | apply Hsame]; reflexivity.
+  - destruct (i <? length (sp_streams sp))%nat; simpl; [apply Hkill | apply Hsame]; reflexivity.
+  - apply Hsame; reflexivity.
+  - apply Hsame; reflexivity.
+  - apply Hsame; reflexivity.
+  - destruct (negb (i <? length (sp_streams sp))%nat || negb (st_live (sp_get sp i))); simpl;
+      [apply Hsame; reflexivity|].
+    apply Hset; simpl; auto. pose proof (Ha i). lia.
+  - destruct (negb (i <? length (sp_streams sp))%nat || negb (st_live (sp_get sp i))); simpl;
+      [apply Hsame; reflexivity|].
+    destruct ((if flv then st_flv (sp_get sp i) else st_rtp (sp_get sp i)) <=? 0); simpl;
+      [apply Hsame; reflexivity|].
+    apply Hset; simpl; auto. pose proof (Ha i). lia.
+  - destruct (i <? length (sp_streams sp))%nat; simpl; [|apply Hsame; reflexivity].
+    destruct ((consumers (sp_get sp i) <=? 0) && negb (hls_recent (sp_get sp i) r)); simpl;
+      [apply Hkill | apply Hsame]; reflexivity.
+  - change (fold_left _ _ sp) with (kill_list sp (filter (sp_live sp) (sp_last sp))).
+    destruct (hls_kill_list (filter (sp_live sp) (sp_last sp)) sp j) as [H1 H2]. rewrite H1, H2.
+    split; auto. intros _. split; auto. lia.
+  - fold (aged sp d).
+    destruct (sp_get_aged sp d j) as [H|[H H']]; rewrite H; simpl.
+    + split; [lia|]. intros _. split; auto. lia.
+    + rewrite H'. simpl. split; [lia|]. intros _. split; auto. lia.
+  - destruct (negb (i <? length (sp_streams sp))%nat || negb (hls_usable (sp_get sp i))); simpl;
+      [apply Hsame; reflexivity|].
+    apply Hset; simpl; auto. pose proof (Ha i). lia.
+  - destruct (negb (i <? length (sp_streams sp))%nat || negb (hls_usable (sp_get sp i))); simpl;
+      [apply Hsame; reflexivity|].
+    apply Hset; simpl; auto. pose proof (Ha i). lia.
+  - destruct (negb (i <? length (sp_streams sp))%nat || negb (hls_usable (sp_get sp i))); simpl;
+      [apply Hsame; reflexivity|].
+    apply Hset; simpl; auto. pose proof (Ha i). lia.
+Qed.
+
+Lemma age_ok_step sp o : age_ok sp -> age_ok (fst (sstep sp o)).
+Proof. intros Ha j. apply (hls_step sp o j Ha). Qed.
+
+Lemma age_ok_init : age_ok sinit.
+Proof. intros [|i]; simpl; lia. Qed.
+
+Lemma age_bound ops : forall sp j,
+  age_ok sp -> (j < length (sp_streams sp))%nat ->
+  st_hls (sp_get (sexec sp ops) j) = st_hls (sp_get sp j) /\
+  st_hls_idle (sp_get (sexec sp ops) j) <= st_hls_idle (sp_get sp j) + ticks ops.
+Proof.
+  induction ops as [|o ops IH]; intros sp j Ha Hj; simpl.
+  - split; auto. lia.
+  - destruct (hls_step sp o j Ha) as [_ H]. destruct (H Hj) as [H1 H2].
+    assert (Hj' : (j < length (sp_streams (fst (sstep sp o))))%nat).
+    { pose proof (length_step sp o). lia. }
+    destruct (IH _ j (age_ok_step sp o Ha) Hj') as [H3 H4]. split; [congruence | lia].
+Qed.
+
+Lemma reach_age_ok ops : age_ok (sexec sinit ops).
+Proof.
+  assert (H : forall ops sp, age_ok sp -> age_ok (sexec sp ops)).
+  { clear ops. induction ops as [|o ops IH]; intros sp Ha; simpl; auto. apply IH, age_ok_step, Ha. }
+  apply H, age_ok_init.
+Qed.
+
+Theorem hls_access_protects : forall ops1 acc ops2 i p,
+  let sp0 := sexec sinit ops1 in
+  (acc = GHlsPoll i \/ exists n, acc = GHlsSeg i n) ->
+  (i < length (sp_streams sp0))%nat -> st_live (sp_get sp0 i) = true -> st_hls (sp_get sp0 i) = true ->
+  ticks ops2 < p ->
+  let sp := sexec sinit (ops1 ++ acc :: ops2) in
+  sstep sp (GIdle i p) = (sp, RIdle false).
+Proof.
+  intros ops1 acc ops2 i p sp0 Hacc Hi Hl Hh Ht sp.
+  unfold sp. rewrite sexec_app. fold sp0. simpl sexec.
+  set (sp1 := fst (sstep sp0 acc)).
+  assert (H1 : (i < length (sp_streams sp1))%nat /\ st_hls (sp_get sp1 i) = true /\
+               st_hls_idle (sp_get sp1 i) = 0).
+  { assert (Hu : negb (i <? length (sp_streams sp0))%nat || negb (hls_usable (sp_get sp0 i)) = false).
+    { apply Nat.ltb_lt in Hi. unfold hls_usable. rewrite Hi, Hl, Hh. reflexivity. }
+    apply Nat.ltb_lt in Hi.
+    unfold sp1. destruct Hacc as [->|[n ->]]; simpl; rewrite Hu; simpl;
+      (split; [rewrite lset_length; apply Nat.ltb_lt; exact Hi|]);
+      rewrite sp_get_set, Nat.eqb_refl, Hi; simpl; auto. }
+  destruct H1 as [Hi1 [Hh1 Ha1]].
+  assert (Hok1 : age_ok sp1) by (apply age_ok_step, reach_age_ok).
+  destruct (age_bound ops2 sp1 i Hok1 Hi1) as [H2 H3].
+  set (spf := sexec sp1 ops2) in *.
+  simpl. destruct (i <? length (sp_streams spf))%nat; simpl; [|reflexivity].
+  assert (Hrec : hls_recent (sp_get spf i) p = true).
+  { unfold hls_recent. rewrite H2, Hh1. simpl. apply Z.ltb_lt. lia. }
+  rewrite Hrec. simpl. rewrite andb_false_r. reflexivity.
 Qed.
 
 (* (d) counts and listings range over exactly the keys that resolve to a live stream *)
@@ -1122,7 +1377,7 @@ Qed.
 
 Lemma acct_ok_step sp o : acct_ok sp -> acct_ok (fst (sstep sp o)).
 Proof.
-  intros Hc. destruct o as [p hls|i|i|i|p| | |i flv|i flv|i r|]; simpl.
+  intros Hc. destruct o as [p hls|i|i|i|p| | |i flv|i flv|i r| |d|i|i|i n]; simpl.
   - intros j. unfold sp_get; simpl. rewrite nth_snoc.
     destruct (j <? length (sp_streams sp))%nat; [apply Hc|].
     destruct (Nat.eqb j (length (sp_streams sp))); unfold strm_ok; simpl; auto.
@@ -1149,9 +1404,17 @@ Proof.
     pose proof (Hc i) as Hi. unfold strm_ok in Hi. rewrite Hl in Hi.
     apply acct_ok_set; auto. unfold strm_ok; simpl. destruct flv; lia.
   - destruct (i <? length (sp_streams sp))%nat; simpl; auto.
-    destruct ((consumers (sp_get sp i) <=? 0) && negb (r && st_hls (sp_get sp i))); simpl; auto.
+    destruct ((consumers (sp_get sp i) <=? 0) && negb (hls_recent (sp_get sp i) r)); simpl; auto.
     apply acct_ok_kill; exact Hc.
   - apply (acct_ok_kill_list _ sp Hc).
+  - intros j. change (sp_get _ j) with (sp_get (aged sp d) j).
+    destruct (sp_get_aged sp d j) as [H|[H _]]; rewrite H; [exact (Hc j) | unfold strm_ok; simpl; auto].
+  - destruct (negb (i <? length (sp_streams sp))%nat || negb (hls_usable (sp_get sp i))); simpl; auto.
+    apply acct_ok_set; auto. exact (Hc i).
+  - destruct (negb (i <? length (sp_streams sp))%nat || negb (hls_usable (sp_get sp i))); simpl; auto.
+    apply acct_ok_set; auto. exact (Hc i).
+  - destruct (negb (i <? length (sp_streams sp))%nat || negb (hls_usable (sp_get sp i))); simpl; auto.
+    apply acct_ok_set; auto. exact (Hc i).
 Qed.
 
 Lemma acct_ok_init : acct_ok sinit.
@@ -1243,7 +1506,7 @@ Example idle_close_ignores_flv_refuted :
     srun sinit ops = [RUnit; RUnit; RUnit; RIdle false] /\
     ok_hist_C05 ops (snd (grun roriginal rinit ops)) = false.
 Proof.
-  exists [GNew [47;97] true; GRegist 0; GAttach 0 true; GIdle 0 false]. vm_compute. auto.
+  exists [GNew [47;97] true; GRegist 0; GAttach 0 true; GIdle 0 0]. vm_compute. auto.
 Qed.
 
 (* ------------------------------------------------------------------ *)
@@ -1291,7 +1554,7 @@ Definition race_run (c : cfg) (sched : list bool) : cfg := fold_left race_step s
 
 Definition mkstrm (p : bytes) (l h : bool) : strm :=
   {| st_path := p; st_live := l; st_rtp := 0; st_flv := 0; st_retire := false; st_hls := h;
-     st_att_total := 0; st_det_total := 0 |}.
+     st_att_total := 0; st_det_total := 0; st_hls_idle := 0; st_segs := 0 |}.
 
 (* three streams on path p; stream 0 is registered and live iff [reg0] (else it has been closed) *)
 Definition race_init (p : bytes) (h0 h1 h2 reg0 : bool) : cfg :=
@@ -1552,7 +1815,8 @@ Definition reg_store_retire (V : rvariant) (g : rstate) (i : nat) (r : option na
       if consumers old <=? 0 then close_stream V g1 j
       else sset g1 j {| st_path := st_path old; st_live := st_live old; st_rtp := st_rtp old;
                         st_flv := st_flv old; st_retire := true; st_hls := st_hls old;
-                        st_att_total := st_att_total old; st_det_total := st_det_total old |}
+                        st_att_total := st_att_total old; st_det_total := st_det_total old;
+     st_hls_idle := st_hls_idle old; st_segs := st_segs old |}
   | None => g1
   end.
 
@@ -1617,7 +1881,7 @@ Definition example_hist : list gop :=
     GUnregist 0;                           (* the retired stream: its successor must stay *)
     GGet [47;47;120;47;46;46;47;65];       (* "//x/../A" *)
     GCount;
-    GIdle 1 true;                          (* no consumers, no HLS: closed *)
+    GIdle 1 5;                             (* no consumers, no HLS: closed *)
     GGet [47;97];
     GCount; GList ].
 
@@ -1648,3 +1912,31 @@ Example example_shutdown_ok :
   end_vec (g_streams (fst (grun rfixed rinit example_shutdown))) = [(false, 1, 1); (false, 1, 1)] /\
   end_vec (sp_streams (sexec sinit example_shutdown)) = [(false, 1, 1); (false, 1, 1)].
 Proof. vm_compute. auto 10. Qed.
+
+(* the seeded class "a playlist request is recorded as an access only when it can be served": the
+   stream is polled a moment before the idle decision and is closed and unregistered all the same *)
+Example hls_poll_unstamped_refuted :
+  exists ops,
+    hist_wf sinit ops = true /\
+    snd (grun rpollunstamped rinit ops) = [RUnit; RUnit; RUnit; RHls false; RIdle true; RGet None] /\
+    srun sinit ops = [RUnit; RUnit; RUnit; RHls false; RIdle false; RGet (Some 0%nat)] /\
+    ok_hist_C05 ops (snd (grun rpollunstamped rinit ops)) = false.
+Proof.
+  exists [GNew [47;97] true; GRegist 0; GTick 5; GHlsPoll 0; GIdle 0 5; GGet [47;97]]. vm_compute. auto.
+Qed.
+
+(* HLS viewers only: polls of a playlist that cannot be served yet keep the stream, three segments make
+   it servable, segments are found among the last three, and a silent period lets the idle task close *)
+Definition example_hls : list gop :=
+  [ GNew [47;97] true; GRegist 0; GTick 3; GHlsPoll 0; GTick 4; GIdle 0 5;
+    GSeg 0; GSeg 0; GSeg 0; GSeg 0; GHlsPoll 0; GHlsSeg 0 1; GHlsSeg 0 0; GHlsSeg 0 7;
+    GTick 4; GIdle 0 5; GTick 1; GIdle 0 5; GGet [47;97] ].
+
+Example example_hls_ok :
+  hist_wf sinit example_hls = true /\
+  snd (grun rfixed rinit example_hls) = srun sinit example_hls /\
+  srun sinit example_hls =
+    [ RUnit; RUnit; RUnit; RHls false; RUnit; RIdle false;
+      RUnit; RUnit; RUnit; RUnit; RHls true; RHls true; RHls false; RHls false;
+      RUnit; RIdle false; RUnit; RIdle true; RGet None ].
+Proof. vm_compute. auto. Qed.
